@@ -166,11 +166,21 @@ def d_tokens_index(F, s):
     if not (idx.get("k") == "Binary" and idx["op"] == "Sub" and lit(idx["rhs"]) and lit(idx["rhs"])[1] >= 1):
         return None
     ivar = q.var_id(idx["lhs"])
-    fors = [p for p in s.path if p.get("k") == "For" and q.var_id(p["iter"]) == vec]
-    if not fors or ivar is None:
+    fors = [p for p in s.path if p.get("k") == "For" and q.loop_over(p)[0] == vec]
+    if not fors or ivar is None or vec is None:
         return None
     loop = fors[-1]
     body = F.fns[s.fn].body
+    ctr = q.counter_of(body, loop, ivar=ivar, exact=False)
+    if ctr is None:
+        return None
+    sub = panic.d_subguard(F, type("S", (), {"node": idx, "path": s.path + (n,)})())
+    if not sub:
+        return None
+    return ("D-INDEX-PREFIX", "index = (iterations so far, %s counter) - %d with `%s`: below the length of the vector being iterated" % (ctr["kind"], lit(idx["rhs"])[1], sub[1]))
+
+
+def _d_tokens_index_old(F, s, n, idx, ivar, loop, body):
     # i is initialised to 0 before the loop and only modified by `i += 1` inside this loop
     init = [st for x in walk(body) if x.get("k") == "Block" for st in x["stmts"] if st["k"] == "Let" and st["pat"].get("k") == "Bind" and st["pat"]["id"] == ivar]
     if len(init) != 1 or lit(init[0]["init"]) != ("i", 0):
